@@ -243,8 +243,8 @@ func (h *H) recResult(res *OpResult, v any) {
 		res.TypedNil = true
 		return
 	}
-	if in, ok := v.(inster); ok {
-		res.Insts = append(res.Insts, in.inst().ID)
+	if in, ok := asInst(v); ok {
+		res.Insts = append(res.Insts, in.ID)
 		return
 	}
 	res.Builtin = v
@@ -276,8 +276,8 @@ func (h *H) doOp(t *simrt.Task, res *OpResult, hd *Handle, op Op) {
 					res.TypedNil = true
 					continue
 				}
-				if in, ok := v.(inster); ok {
-					res.Insts = append(res.Insts, in.inst().ID)
+				if in, ok := asInst(v); ok {
+					res.Insts = append(res.Insts, in.ID)
 				} else {
 					res.Insts = append(res.Insts, -1)
 				}
@@ -287,6 +287,8 @@ func (h *H) doOp(t *simrt.Task, res *OpResult, hd *Handle, op Op) {
 		var ctx context.Context
 		var sc *simContext
 		var stdCancel context.CancelFunc
+		var valKey, valVal any
+		detached := false
 		switch op.CtxKind {
 		case CtxNil:
 		case CtxBackground:
@@ -304,6 +306,14 @@ func (h *H) doOp(t *simrt.Task, res *OpResult, hd *Handle, op Op) {
 				sc = h.newCtx(nil, nil, nil)
 				ctx = sc
 			}
+		case CtxValueOnly:
+			base := context.Background()
+			if hd.Kind == HScope && res.GID%2 == 1 {
+				base = context.WithoutCancel(hd.Scope.Context())
+				detached = true
+			}
+			valKey, valVal = ctxKey{res.GID}, res.GID
+			ctx = context.WithValue(base, valKey, valVal)
 		}
 		s, err := p.CreateScope(ctx)
 		h.setErr(res, err)
@@ -312,7 +322,7 @@ func (h *H) doOp(t *simrt.Task, res *OpResult, hd *Handle, op Op) {
 				res.IsNilRes = true
 				return
 			}
-			nh := &Handle{Kind: HScope, Scope: s, Parent: hd.ID, CtxKind: op.CtxKind, Ctx: sc, ByTask: res.Task, ByOp: res.GID, ScopeCtx: s.Context(), StdCancel: stdCancel}
+			nh := &Handle{Kind: HScope, Scope: s, Parent: hd.ID, CtxKind: op.CtxKind, Ctx: sc, ByTask: res.Task, ByOp: res.GID, ScopeCtx: s.Context(), StdCancel: stdCancel, ValKey: valKey, ValVal: valVal, Detached: detached}
 			res.NewH = h.publish(nh)
 		} else if sc != nil {
 			sc.failedCreate = true
